@@ -94,7 +94,7 @@ func newStoreRun(cfg storeCfg, core *memds.Core) *storeRun {
 
 func (r *storeRun) open() error {
 	st, err := store.NewStore[*vhdr.Header](r.dsi,
-		store.WithWriteBatchSize(r.cfg.batch), store.WithStoreCacheSize(r.cfg.cache), store.WithIndexCacheSize(r.cfg.cache))
+		r.storeOpts()...)
 	if err != nil {
 		return err
 	}
@@ -108,6 +108,15 @@ func (r *storeRun) open() error {
 		r.register(i)
 	}
 	return nil
+}
+
+// storeOpts: batch and cache sizes of the case; every third configuration also switches the store's metrics on
+func (r *storeRun) storeOpts() []store.Option {
+	o := []store.Option{store.WithWriteBatchSize(r.cfg.batch), store.WithStoreCacheSize(r.cfg.cache), store.WithIndexCacheSize(r.cfg.cache)}
+	if r.cfg.cache == 3 {
+		o = append(o, store.WithMetrics())
+	}
+	return o
 }
 
 func (r *storeRun) register(i int) {
